@@ -912,6 +912,9 @@ class MorphFactory:
             new_g = pq@g
             if self.is_included(new_g):
                 raise DependentException()
+            if len(long_leg) == 2:
+                # g becomes a leg of length one attached to the center
+                self.check_dependency_one_leg(new_g)
             self.remove(last_v)
             self.append(lighting, center)
             self.replace(g, new_g)
